@@ -31,6 +31,7 @@ Section Loop.
   Variable state : Type.
   Variable pass : state -> list usym -> state * list usym * list diag.
   Variable nodes_added : state -> state -> bool.             (* symbols.node_count() changed during the pass *)
+  Variable nothing_changed : state -> bool.                  (* ctx.changed.is_empty(): no symbol got another value in the pass *)
   Variable no_segments : state -> bool.                      (* ctx.segments.is_empty() *)
   Variable create_default_segment : state -> state.
   Variable next_pass : state -> state.
@@ -49,7 +50,7 @@ Section Loop.
     | S f =>
         let '(c1, undef1, errors) := pass c undefined in
         let o := mkObs (is_nil errors) (diags_eqb errors prev_errors) (is_nil undef1) (uset_eqb undef1 prev_undefined)
-                       (nodes_added c c1) (no_segments c1) in
+                       (nothing_changed c1) (nodes_added c c1) (no_segments c1) in
         if cond_no_segments o then loop f (next_pass (create_default_segment c1)) undef1 prev_undefined errors
         else if cond_bail o then Failed c1 errors
         else if cond_check_undefined o then
